@@ -67,8 +67,9 @@ func (p *Parser) parseNext() error {
 
 	c := p.data[p.pos]
 
-	// Check for potential operator (starts with letter)
-	if isLetter(c) {
+	// Check for potential operator (starts with a letter, or is one of the
+	// text-showing operators ' and ")
+	if isLetter(c) || c == '\'' || c == '"' {
 		return p.parseOperator()
 	}
 
